@@ -2,6 +2,7 @@ package c24
 
 import (
 	"fmt"
+	"github.com/ipld/go-ipld-prime/node/basicnode"
 	"testing"
 
 	"github.com/ipfs/go-cid"
@@ -25,6 +26,7 @@ type Case struct {
 	Base      scen.Base `json:"base"`
 	UserSkip  int       `json:"user_skip"`   // 0 = no user do-not-send-first-blocks
 	UserCids  []int     `json:"user_cids"`   // indices into the DAG's distinct blocks; empty = no do-not-send-cids
+	UserKey   bool      `json:"user_key"`    // the request also carries dedup-by-key (its own de-duplication scope on the responder)
 	HasCidExt bool      `json:"has_cid_ext"` // send the extension even when empty
 }
 
@@ -32,6 +34,7 @@ func gen(t *rapid.T) Case {
 	c := Case{Base: scen.GenBase(t, run.N(12, 30))}
 	if rapid.IntRange(0, 3).Draw(t, "userext") == 0 {
 		c.UserSkip = rapid.IntRange(0, 6).Draw(t, "userskip")
+		c.UserKey = rapid.IntRange(0, 2).Draw(t, "userkey") == 0
 		if rapid.Bool().Draw(t, "cidext") {
 			c.HasCidExt = true
 			c.UserCids = rapid.SliceOfNDistinct(rapid.IntRange(0, len(c.Base.DAG.Blocks)-1), 0, 4, rapid.ID[int]).Draw(t, "usercids")
@@ -59,6 +62,9 @@ func judge(c Case) *pbt.Verdict {
 			}
 		}
 		exts = append(exts, graphsync.ExtensionData{Name: graphsync.ExtensionDoNotSendCIDs, Data: cidset.EncodeCidSet(userSet)})
+	}
+	if c.UserKey {
+		exts = append(exts, graphsync.ExtensionData{Name: graphsync.ExtensionDeDupByKey, Data: basicnode.NewString("own-scope")})
 	}
 	o := scen.Exchange(outerT, p, scen.ExOpts{Exts: exts})
 	labels, partial := p.Shape()
